@@ -930,6 +930,8 @@ class VSocket:
         self.cuts: collections.deque = collections.deque()      # lengths of the pieces in which rx will be delivered (fragment mode)
         self.peer: Optional['VSocket'] = None
         self.closed = False
+        self.close_requested = False
+        self.io_refs = 0
         self.wr_closed = False
         self.tx_total = 0
         self.rx_total = 0
@@ -1058,6 +1060,10 @@ class VSocket:
 
     def close(self):
         def act():
+            # CPython: while file objects made by makefile() are alive the descriptor stays open (no end-of-stream for the peer yet)
+            self.close_requested = True
+            if self.io_refs > 0:
+                return
             self.closed = True
             if self.listening:
                 self.listening = False
@@ -1065,6 +1071,17 @@ class VSocket:
             self.closed = True
             return
         self.s.op(self.lbl + '.close', _true, act, False)
+
+    def makefile(self, mode='r', buffering=None, *, encoding=None, errors=None, newline=None):
+        self.io_refs += 1
+        return _SockFile(self, mode, encoding or 'utf-8', newline)
+
+    def _decref_io(self):
+        self.io_refs -= 1
+        if self.io_refs <= 0 and self.close_requested and not self.closed:
+            def act():
+                self.closed = True
+            self.s.op(self.lbl + '.close(deferred)', _true, act, False)
 
     def shutdown(self, how):
         # SHUT_WR: the peer sees end-of-stream once it has read what was sent, this end can still receive; SHUT_RD / SHUT_RDWR
@@ -1096,6 +1113,69 @@ class VSocket:
 
     def fileno(self):
         return 1000 + _num(self.uid)
+
+    def __enter__(self):
+        return self
+
+    def __exit__(self, *a):
+        self.close()
+
+
+class _SockFile:
+    """File object over a virtual socket (socket.makefile): binary or text, line-oriented reads through recv."""
+
+    def __init__(self, sock, mode, encoding, newline):
+        self.sock, self.mode, self.encoding = sock, mode, encoding
+        self.text = 'b' not in mode
+        self.buf = bytearray()
+        self.closed = False
+
+    def _fill(self) -> bool:
+        chunk = self.sock.recv(4096)
+        if not chunk:
+            return False
+        self.buf.extend(chunk)
+        return True
+
+    def readline(self, limit=-1):
+        while b'\n' not in self.buf:
+            if not self._fill():
+                break
+        i = self.buf.find(b'\n')
+        n = len(self.buf) if i < 0 else i + 1
+        out = bytes(self.buf[:n])
+        del self.buf[:n]
+        return out.decode(self.encoding) if self.text else out
+
+    def read(self, n=-1):
+        while n < 0 or len(self.buf) < n:
+            if not self._fill():
+                break
+        k = len(self.buf) if n < 0 else min(n, len(self.buf))
+        out = bytes(self.buf[:k])
+        del self.buf[:k]
+        return out.decode(self.encoding) if self.text else out
+
+    def __iter__(self):
+        return self
+
+    def __next__(self):
+        line = self.readline()
+        if not line:
+            raise StopIteration
+        return line
+
+    def write(self, data):
+        self.sock.sendall(data.encode(self.encoding) if isinstance(data, str) else data)
+        return len(data)
+
+    def flush(self):
+        pass
+
+    def close(self):
+        if not self.closed:
+            self.closed = True
+            self.sock._decref_io()
 
     def __enter__(self):
         return self
